@@ -327,6 +327,13 @@ func FormatOf(path, in, format, data string, registry strfmt.Registry) *errors.V
 	return nil
 }
 
+// the first float64 beyond the range of int64 (2^63) and of uint64 (2^64), and the lowest int64 (-2^63)
+const (
+	maxInt64AsFloat  = float64(1 << 63)
+	minInt64AsFloat  = -float64(1 << 63)
+	maxUint64AsFloat = 2 * float64(1<<63)
+)
+
 // MaximumNativeType provides native type constraint validation as a facade
 // to various numeric types versions of Maximum constraint check.
 //
@@ -346,6 +353,12 @@ func MaximumNativeType(path, in string, val interface{}, maximum float64, exclus
 			// a non-integral bound must not be truncated: compare as general numbers
 			return Maximum(path, in, float64(value), maximum, exclusive)
 		}
+		switch { // a bound outside the range of int64 cannot be converted: every int64 lies on one side of it
+		case maximum >= maxInt64AsFloat:
+			return nil
+		case maximum < minInt64AsFloat:
+			return errors.ExceedsMaximum(path, in, maximum, exclusive, val)
+		}
 		return MaximumInt(path, in, value, int64(maximum), exclusive)
 	case reflect.Uint, reflect.Uint8, reflect.Uint16, reflect.Uint32, reflect.Uint64:
 		value := valueHelp.asUint64(val)
@@ -355,6 +368,10 @@ func MaximumNativeType(path, in string, val interface{}, maximum float64, exclus
 		if maximum != math.Trunc(maximum) {
 			// a non-integral bound must not be truncated: compare as general numbers
 			return Maximum(path, in, float64(value), maximum, exclusive)
+		}
+		if maximum >= maxUint64AsFloat {
+			// a bound beyond the range of uint64 cannot be converted: every uint64 is below it
+			return nil
 		}
 		return MaximumUint(path, in, value, uint64(maximum), exclusive)
 	case reflect.Float32, reflect.Float64:
@@ -384,6 +401,12 @@ func MinimumNativeType(path, in string, val interface{}, minimum float64, exclus
 			// a non-integral bound must not be truncated: compare as general numbers
 			return Minimum(path, in, float64(value), minimum, exclusive)
 		}
+		switch { // a bound outside the range of int64 cannot be converted: every int64 lies on one side of it
+		case minimum >= maxInt64AsFloat:
+			return errors.ExceedsMinimum(path, in, minimum, exclusive, val)
+		case minimum < minInt64AsFloat:
+			return nil
+		}
 		return MinimumInt(path, in, value, int64(minimum), exclusive)
 	case reflect.Uint, reflect.Uint8, reflect.Uint16, reflect.Uint32, reflect.Uint64:
 		value := valueHelp.asUint64(val)
@@ -393,6 +416,10 @@ func MinimumNativeType(path, in string, val interface{}, minimum float64, exclus
 		if minimum != math.Trunc(minimum) {
 			// a non-integral bound must not be truncated: compare as general numbers
 			return Minimum(path, in, float64(value), minimum, exclusive)
+		}
+		if minimum >= maxUint64AsFloat {
+			// a bound beyond the range of uint64 cannot be converted: every uint64 is below it
+			return errors.ExceedsMinimum(path, in, minimum, exclusive, val)
 		}
 		return MinimumUint(path, in, value, uint64(minimum), exclusive)
 	case reflect.Float32, reflect.Float64:
